@@ -141,13 +141,13 @@ Proof. exact oracle_of_table_ok. Qed.
 Print Assumptions C08_enumerated_oracles_ok.
 
 (* Completeness of the enumeration: every permutation oracle coincides, on the
-   import lists of the packages of a program (pairwise different names) at the
+   import lists of the packages of a program (pairwise different import paths) at the
    Package.Init site, with one of the enumerated table oracles ... *)
 Theorem C08_enumerated_oracles_complete : forall (o : oracle) (ps : list pkg),
-    oracle_ok o -> NoDup (map p_name ps) ->
+    oracle_ok o -> NoDup (map p_path ps) ->
     exists t, In t (all_tables ps) /\
       forall p, In p ps ->
-        oracle_of_table t N MS_init (p_name p) (p_imports p) = o N MS_init (p_name p) (p_imports p).
+        oracle_of_table t N MS_init (p_path p) (p_imports p) = o N MS_init (p_path p) (p_imports p).
 Proof. exact enumerated_oracles_complete. Qed.
 Print Assumptions C08_enumerated_oracles_complete.
 
@@ -155,7 +155,7 @@ Print Assumptions C08_enumerated_oracles_complete.
    blocks the correspondence check compares) under any permutation oracle is the
    one under some enumerated table. *)
 Theorem C08_pkg_init_enumerated : forall (cls : msite -> site_class) (o : oracle) (ps : list pkg),
-    oracle_ok o -> NoDup (map p_name ps) ->
+    oracle_ok o -> NoDup (map p_path ps) ->
     exists t, In t (all_tables ps) /\
       forall fuel pkgs st p, In p ps -> (forall q, In q (map snd pkgs) -> In q ps) ->
         pkg_init fuel (range_keys cls o) pkgs st p = pkg_init fuel (range_keys cls (oracle_of_table t)) pkgs st p.
